@@ -48,6 +48,19 @@ def env(extra: bool):
     return _envs[extra]
 
 
+_tc_envs: dict[bool, Any] = {}
+
+
+def env_tc(extra: bool):
+    """The same registers with shorthand template comments ({# ... #}) switched on: what is inside such a comment is not markup."""
+    env(extra)
+    if extra not in _tc_envs:
+        from liquid import DictLoader
+
+        _tc_envs[extra] = drv.make_env({"extra": extra, "template_comments": True}, loader=DictLoader({"p": "x", "base": "{% block b %}{% endblock %}"}))
+    return _tc_envs[extra]
+
+
 _REGISTERED: dict[bool, frozenset] = {}
 _BLOCK_TAGS: dict[bool, frozenset] = {}
 _REGISTERED_ENDS: dict[bool, frozenset] = {}
@@ -120,7 +133,7 @@ def strip_extraneous(src: str) -> str:
 
 def judge(ctx: core.Ctx, case: dict[str, Any]) -> None:
     extra = case.get("extra", False)
-    e = env(extra)
+    e = env_tc(extra) if case.get("tc") else env(extra)
     src = case["source"] if "source" in case else source(case["seq"])
     if not drv.lexer_accepts(e, src):
         ctx.count("lexer_rejected_skipped")
@@ -273,9 +286,23 @@ def opaque_cases():
                 yield {"source": src, "extra": bool(i % 2)}
 
 
+TC_INNER = ["{% if x %}", "{% endif %}", "{% endfor %}", "{% frobnicate %}", "{% if ", "{% raw %}", "{% endraw %}", "{% comment %}", "{% endcomment %}", "{{ x", "{% for a in b %}{% endif %}", "{% else %}", "{% break %}",
+            "{% elsif y %}", "{%- endcase -%}", "{% macro m %}", "{% block b %}", "{% liquid\nif x\n%}", "%}", "{%", "x", ""]
+
+
+def template_comment_cases():
+    """Environments with template_comments on: markup inside {# ... #} is text of the comment to the parser, so to the audit too."""
+    i = 0
+    for inner in TC_INNER:
+        for a, b in (("{# ", " #}"), ("{#- ", " -#}"), ("{#", "#}")):
+            for shape in ("Chello", "{% if a %}C{% endif %}", "C{% for i in xs %}C{% endfor %}C", "{% if a %}x{% else %}C{% endif %}", "{% comment %}C{% endcomment %}", "{% raw %}C{% endraw %}C"):
+                i += 1
+                yield {"source": shape.replace("C", a + inner + b), "extra": bool(i % 2), "tc": True}
+
+
 def cases(ctx: core.Ctx):
     rng = ctx.rng("cases")
-    for gi, c in enumerate(opaque_cases()):
+    for gi, c in enumerate(itertools.chain(opaque_cases(), template_comment_cases())):
         if gi % ctx.nshards == ctx.shard:
             yield c
     for s in HAND:
